@@ -717,6 +717,8 @@ def modelled(ty: str, s: str) -> bool:
     """False where the Lean model is knowingly not faithful: Unicode digits / white space for \\d, int(), float(), Decimal()"""
     if ty in ("String", "AnyURI", "NormalizedString", "Boolean", "Base64Binary", "HexBinary"):
         return True
+    if ty == "Decimal" and _re.search(r"[eE][+-]?[0_]*[1-9_][0-9_]{15,}", s):
+        return False     # exponent beyond libmpdec's limits (not modelled)
     return all(ord(c) < 128 or not (c.isdecimal() or c.isdigit() or c.isnumeric() or c.isspace()) for c in s)
 
 
